@@ -56,11 +56,13 @@ def model_value(v):
 
 def discharge(ob, axioms=(), nat_consts=(), timeout_ms=10000, use_cvc5=True, long_retry=None) -> Verdict:
     if long_retry is None:
-        long_retry = timeout_ms >= 20000
+        long_retry = True if timeout_ms >= 20000 else 0        # 0: short form of the last attempt, False: none
     # E-matching over the imported lemmas occasionally diverges on one instantiation order and finishes in milliseconds on
-    # another: three attempts with different solver seeds (short, short, full budget) before the other back ends
+    # another (the same query text was measured at 0.2 s and at > 3 s in consecutive runs): five attempts with different solver
+    # seeds and growing budgets (1/10, 1/10, 1/3, 1/3, full) before the other back ends
     dt = 0.0
-    for attempt, (seed, budget) in enumerate(((0, max(1000, timeout_ms // 3)), (11, max(1000, timeout_ms // 3)), (23, timeout_ms))):
+    for attempt, (seed, budget) in enumerate(((0, max(1000, timeout_ms // 10)), (11, max(1000, timeout_ms // 10)), (23, max(1000, timeout_ms // 3)),
+                                              (37, max(1000, timeout_ms // 3)), (51, timeout_ms))):
         s = z3.Solver()
         s.set("timeout", budget)
         if attempt:
@@ -68,7 +70,7 @@ def discharge(ob, axioms=(), nat_consts=(), timeout_ms=10000, use_cvc5=True, lon
             s.set("smt.random_seed", seed)
         if any(z3.is_quantifier(a) for a in axioms):
             s.set("smt.mbqi", False)         # imported lemmas are instantiated by E-matching on their triggers only
-        for a in (axioms if attempt != 1 else list(reversed(list(axioms)))):
+        for a in (axioms if attempt % 2 == 0 else list(reversed(list(axioms)))):
             s.add(a)
         for c in nat_consts:
             s.add(c >= 0)
@@ -94,10 +96,11 @@ def discharge(ob, axioms=(), nat_consts=(), timeout_ms=10000, use_cvc5=True, lon
                 return Verdict(ob.name, "discharged", "cvc5", dt + secs, where=ob.where, note=ob.note, kind=ob.kind)
             if st == "sat":
                 return Verdict(ob.name, "refuted", "cvc5", dt + secs, {}, txt, ob.where, ob.note, ob.kind)
-    if not long_retry:
+    if long_retry is False:
         return Verdict(ob.name, "unknown", "z3+cvc5", dt, where=ob.where, note=ob.note + f" [{s.reason_unknown()}]", kind=ob.kind, smt2=smt2)
-    # last attempt: z3 with 6x budget
-    s.set("timeout", timeout_ms * 6)
+    # last attempt: z3 with 3x (quick) / 6x (thorough) budget; only reached when every attempt above was undecided, so it costs
+    # nothing on a tree whose obligations discharge and keeps a loaded machine from turning a proof into UNDECIDED
+    s.set("timeout", timeout_ms * (6 if long_retry else 3))
     t0 = time.time()
     r = s.check()
     dt2 = time.time() - t0
